@@ -21,6 +21,7 @@ package main
 
 import (
 	"bytes"
+	"crypto/sha256"
 	"encoding/json"
 	"flag"
 	"fmt"
@@ -29,7 +30,6 @@ import (
 	"path/filepath"
 	"regexp"
 	"runtime"
-	"runtime/pprof"
 	"sort"
 	"strings"
 	"sync"
@@ -40,7 +40,12 @@ import (
 	"verif/harness"
 )
 
-var flagSmoke = flag.String("c18smoke", "", "internal: run the smoke worker on this input file")
+var (
+	flagSmoke  = flag.String("c18smoke", "", "internal: run the smoke worker on this input file")
+	flagShard  = flag.String("c18shard", "", "internal: run Part A shard i/n")
+	flagTmp    = flag.String("c18tmp", "", "internal: fixture directory")
+	flagBudget = flag.Duration("c18budget", time.Minute, "internal: Part A time budget")
+)
 
 type mismatch struct {
 	idx    int64
@@ -50,15 +55,15 @@ type mismatch struct {
 }
 
 type groupStat struct {
-	Cases      int64            `json:"cases"`
-	Valid      int64            `json:"oracle_valid"`
-	Invalid    int64            `json:"oracle_invalid"`
-	Either     int64            `json:"oracle_either"`
-	Accepted   int64            `json:"accepted"`
-	Refused    int64            `json:"refused"`
-	EitherAcc  int64            `json:"either_accepted"`
-	RoundTrips int64            `json:"migrate_round_trips"`
-	Reasons    map[string]int64 `json:"-"`
+	Cases       int64 `json:"cases"`
+	Valid       int64 `json:"oracle_valid"`
+	Invalid     int64 `json:"oracle_invalid"`
+	Either      int64 `json:"oracle_either"`
+	Accepted    int64 `json:"accepted"`
+	Refused     int64 `json:"refused"`
+	EitherAcc   int64 `json:"either_accepted"`
+	RoundTrips  int64 `json:"migrate_round_trips"`
+	Mismatching int64 `json:"mismatching,omitempty"`
 }
 
 type engine struct {
@@ -75,6 +80,13 @@ type engine struct {
 	smoke      []kase
 	reasons    map[string]int64
 	deadline   time.Time
+	shard      int
+	nshards    int
+	caps       []string
+	hashes     []byte
+
+	distinctDocs     int64
+	mismatchingCases int64
 }
 
 func (e *engine) stat(g string) *groupStat {
@@ -95,14 +107,20 @@ func (e *engine) evaluate(k kase) {
 	class := j.class()
 
 	var mm *mismatch
+	var more []mismatch
 	replay := map[string]any{"part": "A", "group": k.group, "case": k.desc, "doc": k.doc}
 	switch {
 	case res.stage == "panic":
 		mm = &mismatch{k.idx, "load-crashes: " + errorShape(res.err, e.tmp) + " @ " + res.frame,
 			fmt.Sprintf("loading crashes instead of returning an error: %s (at %s)\n  case [%s] %s\n  config: %s", res.err, res.frame, k.group, k.desc, render(k.doc)), replay}
 	case class == "invalid" && res.accepted:
-		mm = &mismatch{k.idx, "invalid-configuration-accepted: " + j.reasons(),
-			fmt.Sprintf("a configuration that violates [%s] is accepted by Config.Manager()\n  case [%s] %s\n  config: %s", j.reasons(), k.group, k.desc, render(k.doc)), replay}
+		// one report per violated invariant (a document may violate several)
+		for _, r := range j.invalid {
+			more = append(more, mismatch{k.idx, "invalid-configuration-accepted: " + r,
+				fmt.Sprintf("a configuration that violates [%s] is accepted by Config.Manager()\n  case [%s] %s\n  config: %s", j.reasons(), k.group, k.desc, render(k.doc)), replay})
+		}
+		mm = &more[0]
+		more = more[1:]
 	case class == "valid" && !res.accepted:
 		mm = &mismatch{k.idx, "valid-configuration-refused: " + res.stage + ": " + errorShape(res.err, e.tmp),
 			fmt.Sprintf("a documented-valid configuration is refused at %s: %s\n  case [%s] %s\n  config: %s", res.stage, res.err, k.group, k.desc, render(k.doc)), replay}
@@ -145,6 +163,8 @@ func (e *engine) evaluate(k kase) {
 	}
 	if mm != nil {
 		e.mismatches = append(e.mismatches, *mm)
+		e.mismatches = append(e.mismatches, more...)
+		e.mismatchingCases++
 	}
 	e.mu.Unlock()
 }
@@ -188,36 +208,201 @@ func keyShape(diff string) string {
 	return reIndex.ReplaceAllString(k, "")
 }
 
-// runGroup evaluates all cases a generator produces, on all cores; results are
-// order-independent (mismatches are sorted by case index afterwards).
-func (e *engine) runGroup(name string, smoke bool, gen func(emit func(doc J, desc string))) {
-	ch := make(chan kase, 4096)
-	var wg sync.WaitGroup
-	for w := 0; w < harness.Workers(); w++ {
-		wg.Add(1)
-		go func() {
-			defer wg.Done()
-			for k := range ch {
-				e.evaluate(k)
-			}
-		}()
-	}
+// runGroup evaluates the cases of a generator that belong to this shard
+// (case index modulo shard count), sequentially; shards are processes.
+func (e *engine) runGroup(name string, smoke bool, gen func(s *sink)) {
 	capped := false
-	gen(func(doc J, desc string) {
+	snk := &sink{}
+	snk.own = func() bool {
 		if capped {
-			return
+			return false
 		}
-		if e.next%4096 == 0 && time.Now().After(e.deadline) {
+		if e.next%1024 == 0 && time.Now().After(e.deadline) {
 			capped = true
-			e.c.Cap(fmt.Sprintf("Part A time budget reached inside group %s after %d cases", name, e.next))
-			return
+			e.caps = append(e.caps, fmt.Sprintf("Part A time budget reached inside group %s after %d cases", name, e.next))
+			return false
 		}
-		ch <- kase{idx: e.next, group: name, desc: desc, doc: doc, smoke: smoke}
-		e.c.Distinct(render(doc), true)
+		if e.next%int64(e.nshards) != int64(e.shard) {
+			e.next++
+			return false
+		}
+		return true
+	}
+	snk.put = func(doc J, desc string) {
+		k := kase{idx: e.next, group: name, desc: desc, doc: doc, smoke: smoke}
 		e.next++
-	})
-	close(ch)
+		h := sha256.Sum256([]byte(render(doc)))
+		e.hashes = append(e.hashes, h[:8]...)
+		e.evaluate(k)
+	}
+	gen(snk)
+}
+
+// shardReport is what one Part A shard process hands to the parent.
+type shardReport struct {
+	Next       int64                 `json:"next"`
+	Order      []string              `json:"order"`
+	Stats      map[string]*groupStat `json:"stats"`
+	Reasons    map[string]int64      `json:"reasons"`
+	Caps       []string              `json:"caps"`
+	Mismatches []shardMismatch       `json:"mismatches"`
+	Smoke      []shardCase           `json:"smoke"`
+	HashFile   string                `json:"hashFile"`
+}
+
+type shardMismatch struct {
+	Idx    int64  `json:"idx"`
+	Sig    string `json:"sig"`
+	What   string `json:"what"`
+	Replay any    `json:"replay"`
+}
+
+type shardCase struct {
+	Idx   int64  `json:"idx"`
+	Group string `json:"group"`
+	Desc  string `json:"desc"`
+	Doc   J      `json:"doc"`
+}
+
+// shardMain runs Part A for one shard and prints its report.
+func shardMain(c *harness.Check, spec, tmp string, budget time.Duration) {
+	runtime.GOMAXPROCS(2)
+	e := &engine{c: c, tmp: tmp, env: loadEnv(tmp), logger: zap.NewNop(), stats: map[string]*groupStat{}, reasons: map[string]int64{}}
+	fmt.Sscanf(spec, "%d/%d", &e.shard, &e.nshards)
+	if e.nshards < 1 {
+		harness.Fatal("bad shard spec %q", spec)
+	}
+	if _, err := os.Stat(filepath.Join(tmp, "ds.txt")); err != nil {
+		if err := writeFixtures(tmp); err != nil {
+			harness.Fatal("fixtures: %v", err)
+		}
+	}
+	e.deadline = time.Now().Add(budget)
+	partA(e)
+	rep := shardReport{Next: e.next, Order: e.order, Stats: e.stats, Reasons: e.reasons, Caps: e.caps}
+	// mismatches of one defect repeat thousands of times: keep the first few per signature
+	perSig := map[string]int{}
+	sort.Slice(e.mismatches, func(i, k int) bool { return e.mismatches[i].idx < e.mismatches[k].idx })
+	for _, m := range e.mismatches {
+		perSig[m.sig]++
+		if perSig[m.sig] <= 3 {
+			rep.Mismatches = append(rep.Mismatches, shardMismatch{m.idx, m.sig, m.what, m.replay})
+		}
+	}
+	for _, k := range e.smoke {
+		rep.Smoke = append(rep.Smoke, shardCase{k.idx, k.group, k.desc, k.doc})
+	}
+	rep.HashFile = filepath.Join(tmp, fmt.Sprintf("hashes-%d.bin", e.shard))
+	if err := os.WriteFile(rep.HashFile, e.hashes, 0o644); err != nil {
+		harness.Fatal("shard %s: %v", spec, err)
+	}
+	rep.Stats["_"] = &groupStat{Mismatching: e.mismatchingCases}
+	b, _ := json.Marshal(rep)
+	os.Stdout.Write(b)
+	os.Exit(0)
+}
+
+// runShards runs Part A in Workers() processes and merges their reports into e.
+func runShards(e *engine, budget time.Duration) (mismatching int64) {
+	n := harness.Workers()
+	reps := make([]*shardReport, n)
+	errs := make([]string, n)
+	var wg sync.WaitGroup
+	for i := 0; i < n; i++ {
+		wg.Add(1)
+		go func(i int) {
+			defer wg.Done()
+			cmd := exec.Command(os.Args[0], "--tier", e.c.Tier, "--c18shard", fmt.Sprintf("%d/%d", i, n), "--c18tmp", e.tmp, "--c18budget", budget.String())
+			var se bytes.Buffer
+			cmd.Stderr = &se
+			out, err := cmd.Output()
+			if err != nil {
+				errs[i] = fmt.Sprintf("%v\n%s", err, tailStr(se.String(), 3000))
+				return
+			}
+			var r shardReport
+			if err := json.Unmarshal(out, &r); err != nil {
+				errs[i] = "bad report: " + err.Error()
+				return
+			}
+			reps[i] = &r
+		}(i)
+	}
 	wg.Wait()
+	for i, er := range errs {
+		if er != "" {
+			harness.Fatal("Part A shard %d/%d failed: %s", i, n, er)
+		}
+	}
+	capSeen := map[string]bool{}
+	distinct := map[[8]byte]struct{}{}
+	for i, r := range reps {
+		if r.Next != reps[0].Next && len(r.Caps) == 0 && len(reps[0].Caps) == 0 {
+			harness.Fatal("Part A shards disagree on the number of cases (%d vs %d): the enumeration is not deterministic", r.Next, reps[0].Next)
+		}
+		if i == 0 {
+			e.order = r.Order
+			e.next = r.Next
+		}
+		for g, s := range r.Stats {
+			if g == "_" {
+				mismatching += s.Mismatching
+				continue
+			}
+			t := e.stats[g]
+			if t == nil {
+				t = &groupStat{}
+				e.stats[g] = t
+				found := false
+				for _, o := range e.order {
+					found = found || o == g
+				}
+				if !found {
+					e.order = append(e.order, g)
+				}
+			}
+			t.Cases += s.Cases
+			t.Valid += s.Valid
+			t.Invalid += s.Invalid
+			t.Either += s.Either
+			t.Accepted += s.Accepted
+			t.Refused += s.Refused
+			t.EitherAcc += s.EitherAcc
+			t.RoundTrips += s.RoundTrips
+		}
+		for k, v := range r.Reasons {
+			e.reasons[k] += v
+		}
+		for _, cp := range r.Caps {
+			// every shard reports the same cap; say it once
+			key := cp[:min(len(cp), 60)]
+			if !capSeen[key] {
+				capSeen[key] = true
+				e.c.Cap(cp)
+			}
+		}
+		for _, m := range r.Mismatches {
+			e.mismatches = append(e.mismatches, mismatch{m.Idx, m.Sig, m.What, m.Replay})
+		}
+		for _, k := range r.Smoke {
+			e.smoke = append(e.smoke, kase{idx: k.Idx, group: k.Group, desc: k.Desc, doc: k.Doc, smoke: true})
+		}
+		hb, err := os.ReadFile(r.HashFile)
+		if err != nil {
+			harness.Fatal("shard hashes: %v", err)
+		}
+		for o := 0; o+8 <= len(hb); o += 8 {
+			var h [8]byte
+			copy(h[:], hb[o:o+8])
+			distinct[h] = struct{}{}
+		}
+		os.Remove(r.HashFile)
+	}
+	for h := range distinct {
+		e.c.Distinct(string(h[:]), true)
+	}
+	e.distinctDocs = int64(len(distinct))
+	return
 }
 
 func main() {
@@ -227,6 +412,10 @@ func main() {
 		return
 	}
 	c := harness.Start("C18")
+	if *flagShard != "" {
+		shardMain(c, *flagShard, *flagTmp, *flagBudget)
+		return
+	}
 	runtime.GOMAXPROCS(harness.Workers())
 
 	tmp, err := os.MkdirTemp("", "c18-")
@@ -238,8 +427,18 @@ func main() {
 		cleanup()
 		harness.Fatal("fixtures: %v", err)
 	}
-	e := &engine{c: c, tmp: tmp, env: loadEnv(tmp), logger: zap.NewNop(), stats: map[string]*groupStat{}, reasons: map[string]int64{}}
+	e := &engine{c: c, tmp: tmp, env: loadEnv(tmp), logger: zap.NewNop(), stats: map[string]*groupStat{}, reasons: map[string]int64{}, nshards: 1}
 
+	if os.Getenv("C18_BASE") != "" {
+		for _, d := range []J{richDoc(m128, false), richDoc("socks5", true)} {
+			res := load(resolve(render(d), e.env), e.logger)
+			j := judge(d)
+			fmt.Printf("%s\n  accepted=%v stage=%s err=%s oracle=%s %v %v\n", render(d), res.accepted, res.stage, res.err, j.class(), j.invalid, j.either)
+			res.close()
+		}
+		cleanup()
+		os.Exit(0)
+	}
 	if c.Replay != "" {
 		bad := replay(e)
 		cleanup()
@@ -258,41 +457,37 @@ func main() {
 		"accepted documents of the smoke set are started on 127.0.0.1:0 in worker subprocesses and driven with a fixed traffic script"
 	c.Assumptions = []string{
 		"Linux, loopback networking available; no external network (probe services and name resolution beyond /etc/hosts fail benignly)",
-		"the oracle demands nothing where the documentation is silent (class 'either'): server without listeners, empty names, duplicate route names, route to a client lacking one network, UDP listener on a TCP-only protocol, tunnelUDPTargetOnly with a domain address, empty uPSK store, MTU above 65535, empty-string durations",
+		"the oracle demands nothing where the documentation is silent (class 'either'): server without listeners, empty names, duplicate route names, route to a client lacking one network, UDP listener on a TCP-only protocol, tunnelUDPTargetOnly with a domain address, empty uPSK store, MTU above 65535, empty-string durations, usernames of SOCKS5/HTTP users",
 		"Part C verdicts are crashes only; missing echoes and stop hangs are counted, never judged",
 	}
 
-	if pf := os.Getenv("C18_PROF"); pf != "" {
-		f, _ := os.Create(pf)
-		pprof.StartCPUProfile(f)
-		defer pprof.StopCPUProfile()
-	}
 	t0 := time.Now()
-	e.deadline = t0.Add(harness.Pick(c, 70*time.Second, 40*time.Minute))
-	partA(e)
+	mismatching := runShards(e, harness.Pick(c, 60*time.Second, 40*time.Minute))
 	partATime := time.Since(t0)
-	if os.Getenv("C18_PROF") != "" {
-		pprof.StopCPUProfile()
-		os.Exit(0)
-	}
 
 	sort.Slice(e.mismatches, func(i, k int) bool { return e.mismatches[i].idx < e.mismatches[k].idx })
-	confirmed := map[string]bool{}
+	confirmed := map[string]string{}
 	for i := range e.mismatches {
 		m := &e.mismatches[i]
-		if !strings.HasPrefix(m.sig, "load-crashes: ") || confirmed[m.sig] {
+		if !strings.HasPrefix(m.sig, "load-crashes: ") {
 			continue
 		}
-		confirmed[m.sig] = true
+		if sig, ok := confirmed[m.sig]; ok {
+			m.sig = sig
+			continue
+		}
 		// run the same document in a plain subprocess (no SetPanicOnFault): the real outcome
 		rp := m.replay.(map[string]any)
 		o := runSmoke(e, kase{doc: rp["doc"].(J)})
+		old := m.sig
 		if o.crashed {
 			msg, frame := crashShape(o.stderr)
+			m.sig = "load-crashes: " + msg + " @ " + frame
 			m.what += fmt.Sprintf("\n  confirmed in a separate process: it dies with exit code %d: %s at %s\n  crash dump (head):\n%s", o.exit, msg, frame, indent(headStr(o.stderr, 1800)))
 		} else {
 			m.what += "\n  (a separate process did not die on this document)"
 		}
+		confirmed[old] = m.sig
 	}
 	for _, m := range e.mismatches {
 		c.Violation(m.sig, m.what, m.replay)
@@ -300,6 +495,9 @@ func main() {
 	var totalCases, totalAcc, totalInv, totalValid, totalEither, totalRT int64
 	for _, g := range e.order {
 		s := e.stats[g]
+		if s == nil {
+			continue
+		}
 		totalCases += s.Cases
 		totalAcc += s.Accepted
 		totalInv += s.Invalid
@@ -309,24 +507,16 @@ func main() {
 		b, _ := json.Marshal(s)
 		var m map[string]any
 		json.Unmarshal(b, &m)
+		delete(m, "mismatching")
 		c.Part("A:"+g, m)
 	}
-	c.Count(totalCases, 0, totalCases+2*totalRT)
-	var rs []string
-	for r := range e.reasons {
-		rs = append(rs, r)
-	}
-	sort.Strings(rs)
-	reasonCounts := map[string]int64{}
-	for _, r := range rs {
-		reasonCounts[r] = e.reasons[r]
-	}
+	c.Count(totalCases, e.distinctDocs, totalCases+2*totalRT)
 	c.Extra["partA"] = map[string]any{
-		"cases": totalCases, "oracle_valid": totalValid, "oracle_invalid": totalInv, "oracle_either": totalEither,
-		"accepted": totalAcc, "migrate_round_trips": totalRT, "mismatching_cases": len(e.mismatches), "wall_s": partATime.Seconds(),
-		"invalidity_reasons_exercised": reasonCounts,
+		"cases": totalCases, "distinct_documents": e.distinctDocs, "oracle_valid": totalValid, "oracle_invalid": totalInv, "oracle_either": totalEither,
+		"accepted": totalAcc, "migrate_round_trips": totalRT, "mismatching_cases": mismatching, "wall_s": partATime.Seconds(),
+		"invalidity_reasons_exercised": e.reasons, "shard_processes": harness.Workers(),
 	}
-	fmt.Printf("C18 part A: %d cases (%d valid, %d invalid, %d either; %d accepted), %d mismatching cases, %.1fs\n", totalCases, totalValid, totalInv, totalEither, totalAcc, len(e.mismatches), partATime.Seconds())
+	fmt.Printf("C18 part A: %d cases (%d distinct documents; %d valid, %d invalid, %d either; %d accepted), %d mismatching cases, %.1fs\n", totalCases, e.distinctDocs, totalValid, totalInv, totalEither, totalAcc, mismatching, partATime.Seconds())
 
 	t1 := time.Now()
 	partB(e)
@@ -347,7 +537,7 @@ func partA(e *engine) {
 	thorough := e.c.Thorough()
 
 	// A1: every server protocol x client protocol x listener form x enabled networks
-	e.runGroup("protocol-matrix", true, func(emit func(J, string)) {
+	e.runGroup("protocol-matrix", true, func(s *sink) {
 		bools := []bool{true, false}
 		for _, legacy := range []bool{false, true} {
 			for _, sp := range serverProtoLetters {
@@ -356,8 +546,11 @@ func partA(e *engine) {
 						for _, sU := range bools {
 							for _, cT := range bools {
 								for _, cU := range bools {
+									if !s.own() {
+										continue
+									}
 									o := baseOpts{sp: sp.(string), cp: cp.(string), legacy: legacy, sTCP: sT, sUDP: sU, cTCP: cT, cUDP: cU}
-									emit(baseDoc(o), fmt.Sprintf("server=%q client=%q legacy=%v serverTCP=%v serverUDP=%v clientTCP=%v clientUDP=%v", sp, cp, legacy, sT, sU, cT, cU))
+									s.put(baseDoc(o), fmt.Sprintf("server=%q client=%q legacy=%v serverTCP=%v serverUDP=%v clientTCP=%v clientUDP=%v", sp, cp, legacy, sT, sU, cT, cU))
 								}
 							}
 						}
@@ -370,22 +563,28 @@ func partA(e *engine) {
 			for _, sp := range serverProtoLetters {
 				for _, multi := range bools {
 					for _, clients := range []any{omitted, L{}} {
+						if !s.own() {
+							continue
+						}
 						d := baseDoc(baseOpts{sp: sp.(string), legacy: legacy, sTCP: true, sUDP: true, multiUser: multi, noClients: true})
 						setPath(d, "clients", clients)
-						emit(d, fmt.Sprintf("server=%q legacy=%v multiUser=%v clients=%s", sp, legacy, multi, letter(clients)))
+						s.put(d, fmt.Sprintf("server=%q legacy=%v multiUser=%v clients=%s", sp, legacy, multi, letter(clients)))
 					}
 				}
 			}
 		}
 		for _, n := range []any{omitted, L{}} {
+			if !s.own() {
+				continue
+			}
 			d := J{}
 			setPath(d, "servers", n)
-			emit(d, "servers="+letter(n))
+			s.put(d, "servers="+letter(n))
 		}
 	})
 
 	// A2: the tunnel section, full product
-	e.runGroup("tunnel-section", true, func(emit func(J, string)) {
+	e.runGroup("tunnel-section", true, func(s *sink) {
 		for _, legacy := range []bool{false, true} {
 			for _, nets := range [][2]bool{{true, true}, {true, false}, {false, true}} {
 				base := func() J {
@@ -396,9 +595,7 @@ func partA(e *engine) {
 					{name: "servers.0.tunnelUDPTargetOnly", vals: []any{omitted, false, true}},
 					{name: "servers.0.mtu", vals: []any{1500, 1280, 1279}},
 				}
-				product(base, ax, []int{0, 1, 2}, func(d J, desc string) {
-					emit(d, fmt.Sprintf("legacy=%v tcp=%v udp=%v ; %s", legacy, nets[0], nets[1], desc))
-				})
+				product(base, ax, []int{0, 1, 2}, s.prefixed(fmt.Sprintf("legacy=%v tcp=%v udp=%v ; ", legacy, nets[0], nets[1])))
 			}
 		}
 	})
@@ -413,9 +610,11 @@ func partA(e *engine) {
 	for _, v := range variants[:harness.Pick(e.c, 4, len(variants))] {
 		axes := richAxes(v.legacy)
 		base := func() J { return richDoc(v.sp, v.legacy) }
-		e.runGroup(fmt.Sprintf("singles(%s,legacy=%v)", v.sp, v.legacy), true, func(emit func(J, string)) {
-			emit(base(), "base")
-			tuples(base, axes, 1, emit)
+		e.runGroup(fmt.Sprintf("singles(%s,legacy=%v)", v.sp, v.legacy), true, func(s *sink) {
+			if s.own() {
+				s.put(base(), "base")
+			}
+			tuples(base, axes, 1, s)
 		})
 	}
 
@@ -444,14 +643,14 @@ func partA(e *engine) {
 			if len(chosen) == 0 {
 				continue
 			}
-			e.runGroup(p.name+tag, false, func(emit func(J, string)) { product(base, axes, chosen, emit) })
+			e.runGroup(p.name+tag, false, func(s *sink) { product(base, axes, chosen, s) })
 		}
 	}
 	// client sections do not depend on the server variant
 	{
 		axes := richAxes(false)
 		base := func() J { return richDoc(m128, false) }
-		e.runGroup("client-section", false, func(emit func(J, string)) { product(base, axes, sectionAxes(axes, "client"), emit) })
+		e.runGroup("client-section", false, func(s *sink) { product(base, axes, sectionAxes(axes, "client"), s) })
 		for _, method := range []string{m128, m256} {
 			base := func() J {
 				d := richDoc(m128, false)
@@ -464,11 +663,11 @@ func partA(e *engine) {
 					sel = append(sel, i)
 				}
 			}
-			e.runGroup("ss2022-client-section("+method+")", false, func(emit func(J, string)) { product(base, axes, sel, emit) })
+			e.runGroup("ss2022-client-section("+method+")", false, func(s *sink) { product(base, axes, sel, s) })
 		}
 	}
 	// MTU x NAT timeout x method x user mode: the two numeric invariants together
-	e.runGroup("ss2022-mtu-nat-keys", false, func(emit func(J, string)) {
+	e.runGroup("ss2022-mtu-nat-keys", false, func(s *sink) {
 		for _, legacy := range []bool{false, true} {
 			for _, method := range []string{m128, m256} {
 				for _, multi := range []bool{false, true} {
@@ -486,9 +685,7 @@ func partA(e *engine) {
 						{name: "clients.0.mtu", vals: []any{omitted, 1279, 1280, 1500}},
 						{name: "clients.0.psk(len)", vals: []any{16, 32, 24}, apply: pskAxisApply("clients.0.psk")},
 					}
-					product(base, ax, []int{0, 1, 2, 3, 4}, func(d J, desc string) {
-						emit(d, fmt.Sprintf("method=%s legacy=%v multiUser=%v ; %s", method, legacy, multi, desc))
-					})
+					product(base, ax, []int{0, 1, 2, 3, 4}, s.prefixed(fmt.Sprintf("method=%s legacy=%v multiUser=%v ; ", method, legacy, multi)))
 				}
 			}
 		}
@@ -498,14 +695,14 @@ func partA(e *engine) {
 	for _, v := range variants[:nv] {
 		axes := richAxes(v.legacy)
 		base := func() J { return richDoc(v.sp, v.legacy) }
-		e.runGroup(fmt.Sprintf("pairs(%s,legacy=%v)", v.sp, v.legacy), false, func(emit func(J, string)) { tuples(base, axes, 2, emit) })
+		e.runGroup(fmt.Sprintf("pairs(%s,legacy=%v)", v.sp, v.legacy), false, func(s *sink) { tuples(base, axes, 2, s) })
 	}
 	// A6 (thorough): all triples
 	if thorough {
 		for _, v := range variants[:2] {
 			axes := richAxes(v.legacy)
 			base := func() J { return richDoc(v.sp, v.legacy) }
-			e.runGroup(fmt.Sprintf("triples(%s,legacy=%v)", v.sp, v.legacy), false, func(emit func(J, string)) { tuples(base, axes, 3, emit) })
+			e.runGroup(fmt.Sprintf("triples(%s,legacy=%v)", v.sp, v.legacy), false, func(s *sink) { tuples(base, axes, 3, s) })
 		}
 	}
 }
